@@ -19,7 +19,7 @@ CLAIMS = {
         "its pending fall time, depth 4; two deep-root worlds starting from 9- and 16-call programs inside / after an EOM block; an EOM "
         "slower than its channel; an SLM mask in Ising mode; a maximum duration below the waits the channel needs) are executed on "
         "the real Sequence; tiling, clock alignment, minimum durations, prefix stability, reported durations and agreement of the three "
-        "timeline views (schedule, str, sampler) are checked on every transition. Per-channel parameter overrides give a world in which two channels of one basis have clocks 1 and 4 (a phase barrier off the other grid).",
+        "timeline views (schedule, str, sampler) are checked on every transition. Per-channel parameter overrides give a world in which two channels of one basis have clocks 1 and 4 (a phase barrier off the other grid). Worlds with a minimum duration that is not a multiple of the clock (automatic waits at or below the minimum) and with a never-targeted Local channel (no slot at all).",
         "Bounded depth and alphabet; Pulse.fall_time trusted for the pending-fall-time clause (decided separately by C14).",
         "DESIGN.md §3 C02",
     ),
@@ -33,7 +33,7 @@ CLAIMS = {
         "None/8/30 MHz, mixed per-channel bandwidths): every accepted add / "
         "align / delay is compared with RefSched's earliest admissible start; min-delay / wait-for-all lower bounds, the "
         "phase-shift barrier, exactness of no-delay, estimate_added_delay == inserted delay (and purity) and align's common end "
-        "are checked model-free on every transition. One world has clocks 1 vs 4 on one basis.",
+        "are checked model-free on every transition. One world has clocks 1 vs 4 on one basis. min-delay / wait-for-all starts and at-rest alignments are also compared with a fall-time lower bound computed from the scheduled samples alone (documented Gaussian filter), with pulses whose amplitude ends smoothly while the detuning starts flat and ends high; one world has a minimum duration off the clock grid.",
         "Fall times of scheduled pulses are trusted inputs (C14). Detuned EOM idle slots on other channels may or may not count "
         "as pulses (both accepted). Bounded depth/alphabet.",
         "DESIGN.md §3 C03, Appendix A",
@@ -87,7 +87,7 @@ CLAIMS = {
         "(variable declaration, pulses, delays, phase shifts, align, channel declaration, measure) and the original must keep its "
         "full snapshot; finally the caller edits every list object it passed as an argument (targets, SLM qubits) and the record "
         "of calls and its replay must not follow. Attributes of the sequence that the snapshot does not know by name are carried "
-        "generically, so a cache written by a read-only call is a state change. A copy that raises is named after the first prefix of the history after which it raises.",
+        "generically, so a cache written by a read-only call is a state change. A copy that raises is named after the first prefix of the history after which it raises. Worlds: a channel-less sequence on non-reusable channels (DMM id taken by a pending SLM mask), an SLM mask on a DMM with stricter duration limits than the Global channel.",
         "Known findings (non-atomic multi-step operations under max_sequence_duration, declare_channel with a bad initial "
         "target) are listed in known_findings.json. Bounded depth; fault menu as listed in mc/props/c09.py.",
         "DESIGN.md §3 C09",
@@ -121,7 +121,7 @@ CLAIMS = {
         "(below/at/above the limiting Rabi frequency) x 3 detunings x 21 optima + exact midpoints + the options themselves: "
         "option set equals an independent computation, choice is the closest option, stored choice reproduces itself; (c) every "
         "valid drift-corrected EOM history up to depth 3-4 is emulated and its final Rydberg population equals that of the same "
-        "pulses at zero off-detuning (5e-5). One world gives the EOM a custom buffer time shorter than the channel's own fall time.",
+        "pulses at zero off-detuning (5e-5). One world gives the EOM a custom buffer time shorter than the channel's own fall time. Every state with an open EOM block is sampled with an extended duration: the idle tail sits at the block's off-detuning whatever the last slot.",
         "Fall times trusted (C14). Populations compared at the final time only; single atom.",
         "DESIGN.md §3 C15",
     ),
@@ -136,7 +136,7 @@ CLAIMS = {
         "Ising SLM mask, two detuning maps on one DMM id, a detuning map built from its own coordinate array): per channel array lengths, amplitude, "
         "detuning and phase over each pulse; per atom and basis the complex drive and weighted detuning from both "
         "to_nested_dict layouts; extension by 1 and 37 ns pads with zeros / last phase / off-detuning. Idle time inside an EOM block is "
-        "rendered from the block (mode), not from the kind of slot the implementation recorded. SequenceSamples.extend_duration to the longest channel, +1 and +37 ns next to the per-channel extension.",
+        "rendered from the block (mode), not from the kind of slot the implementation recorded. SequenceSamples.extend_duration to the longest channel, +1 and +37 ns next to the per-channel extension. States in which a declared channel has no slot at all (Local channel never targeted) are rendered too; the sampled channel names must be the declared ones.",
         "Known findings: channels merged into one nested-dict entry are combined by adding amplitudes and phases (two globals "
         "on a basis; global+local with all_local=True); a merge model (sum of amplitudes and carried phases per entry) scopes these "
         "findings: a deviation that is not that sum has its own fingerprint. Phase between pulses is not compared.",
@@ -152,7 +152,7 @@ CLAIMS = {
         "register order, in Ising, XY and DMM worlds; Ising mode with an SLM mask leaving one (of two / three) atoms unmasked; Rydberg "
         "levels 50/60/70/100): "
         "get_hamiltonian(t) == documented formula to 1e-9 and Hermitian to 1e-12 for every integer t, with the documented state "
-        "ordering. XY world with four atoms of which two are masked.",
+        "ordering. XY world with four atoms of which two are masked. On every compared program the same emulator then goes through [amplitude / doppler / state-preparation noise] followed by reset_config or the default configuration and must again give the documented Hamiltonian with the programmed values; one world has a never-targeted Local channel declared first.",
         "Integer times only (QuTiP interpolates between samples); 2-3 atoms; C6 read from the JSON table, C3 = 3700. Known "
         "finding: two global channels on one basis.",
         "DESIGN.md §3 C05",
@@ -169,7 +169,7 @@ CLAIMS = {
         "every limit => accepted and scheduled unchanged (or only lengthened to the next clock multiple with the same defining "
         "parameters). Monitor: every pulse slot of every state of a depth 2-4 BFS on four worlds with / without limits; for every accepted "
         "transition ending at E the same call is re-issued with max_sequence_duration = E (must be accepted) and E-1 (must be "
-        "refused). Two detuning maps of different largest weight configured on one DMM id, with detunings between the two per-atom limits.",
+        "refused). Two detuning maps of different largest weight configured on one DMM id, with detunings between the two per-atom limits. An SLM mask on a DMM whose clock / minimum / maximum duration differ from the Global channel's (the mask's automatic pulse must respect the DMM's own limits).",
         "Detuning values within 1e-6 of a limit are a don't-care band; custom / composite waveforms may be refused for "
         "non-clock-multiple durations; waveform samples trusted (C16).",
         "DESIGN.md §3 C01",
@@ -209,7 +209,7 @@ CLAIMS = {
         "reaches -0.0) and +-3e-6 (off the trap). Object histories: every "
         "sequence of <= 3 (thorough 4) steps over 12 uses / caller-side edits (constructor argument; containers and arrays "
         "returned by traps_dict, coords, sorted_coords, register.qubits, weights) on one 2D / 3D layout built from an array or a "
-        "list, compared after every step with a pristine layout of the same coordinates (7.5k histories). Every out-of-range trap id (-1, -n, n, n+1) must be refused by define_register and MappableRegister.build_register.",
+        "list, compared after every step with a pristine layout of the same coordinates (7.5k histories). Every out-of-range trap id (-1, -n, n, n+1) must be refused by define_register and MappableRegister.build_register. The register constructor with layout= and every ordering of the right trap ids: only the qubits' own pairing is accepted.",
         "Grid values only; sets whose coordinates coincide after rounding must be refused or numbered consistently.",
         "DESIGN.md §3 C19",
     ),
@@ -223,7 +223,7 @@ CLAIMS = {
         "layout-based registers for fillings {0.5,1,0.4,0.45,0.57,0.35,0.29,0.58,0.07,0.7} x trap bounds x trap and atom counts "
         "around the limit (incl. exactly the maximum number of traps and products that are integers only in exact arithmetic); the atom-number limit on registers that come from "
         "a valid layout; automatic layouts on a physical device "
-        "and max_connectivity registers must be accepted by their device; device construction (+ specs / docs rendering) for "
+        "and max_connectivity registers must be accepted by their device (spacings within 1e-3 .. 5e-7 of the minimum distance on both sides); device construction (+ specs / docs rendering) for "
         "each optional parameter None / valid / boundary / invalid.",
         "Don't-care bands: distances within 1e-6 below the minimum, radii within 1e-14 relative of the maximum.",
         "DESIGN.md §3 C12",
@@ -242,7 +242,7 @@ CLAIMS = {
         "ending in a short zero / low hold and sign-changing ramps) and EOM bandwidths 20/40: the true output beyond duration + "
         "Pulse.fall_time stays below max(0.01, 0.6 % of peak). Sequences: modulated sampling succeeds whenever plain sampling "
         "does and every array ends at the channel duration including fall time, on every state of a depth 2-3 BFS (empty "
-        "channels, channels without bandwidth, open EOM blocks, DMM, EOM slower than / as fast as its channel). Channel bandwidths 240 / 300 / 479 MHz (just below the library ceiling); an exception raised while sampling an accepted sequence is a violation.",
+        "channels, channels without bandwidth, open EOM blocks, DMM, EOM slower than / as fast as its channel). Channel bandwidths 240 / 300 / 479 MHz (just below the library ceiling); an exception raised while sampling an accepted sequence is a violation. Fall-time grid with BOTH waveforms of a pulse shaped (6 x 6 shapes x sign) and EOM-mode pulses of weak / zero amplitude and large detuning on 5 / 20 / 40 MHz EOMs.",
         "Reference filter = Gaussian impulse response of the documented transfer function on a zero-padded input; bandwidths "
         "where int() truncation of the rise time loses > 3 % (37, 44, 49 ... 100 MHz) exceed the 0.6 % clause by design margin "
         "and are not in the grid (DESIGN.md Appendix B #13).",
@@ -263,7 +263,7 @@ CLAIMS = {
         "waveform classes over the SAME variable and constant as two arguments of one template. "
         "Mappable registers: 3 unsorted declared-id orders x every injective mapping of 1-3 ids onto 4 traps x every mapping "
         "insertion order x every index: declared order, trap positions, index-based targeting and equality with direct "
-        "construction on the concrete register. Whole-array variables read through a caller-owned index list which the caller reverses after writing the template.",
+        "construction on the concrete register. Whole-array variables read through a caller-owned index list which the caller reverses after writing the template. Rounding at exact ties (round half to even) and array literals as operands (scalar x array, array x array, array + array).",
         "Assignments restricted to those the direct construction accepts; phase-reference entries of unmapped qubits are "
         "ignored (unobservable).",
         "DESIGN.md §3 C08",
@@ -279,7 +279,7 @@ CLAIMS = {
         "out of register order: decoded == the program written with str(id)}, plus the shared-operand expression pairs of C08. For each: document valid under the published "
         "schema (own validator) , decoding succeeds, device and register equal, decoded snapshot equal (or, when parametrized / "
         "mappable, builds for two assignments equal), encode-decode-encode is a fixpoint, measurement and variables equal, and "
-        "encoding leaves the original's full snapshot (incl. call log) unchanged; abstract and legacy codecs. Custom devices that keep a built-in device's name with other specifications (physical and virtual) must come back with their own specifications.",
+        "encoding leaves the original's full snapshot (incl. call log) unchanged; abstract and legacy codecs. Custom devices that keep a built-in device's name with other specifications (physical and virtual) must come back with their own specifications. C08's skeleton templates (every expression kind at every position, incl. whole-array arguments combined with array literals) go through both codecs and must build to the same sequences.",
         "Channels compared as a name-keyed map. Known finding: numpy.round expressions are not exportable.",
         "DESIGN.md §3 C04",
     ),
@@ -316,7 +316,7 @@ CLAIMS = {
         "ids, channels / DMMs listed in reverse order) + 6 physical variants; registers "
         "2D/3D x 6 atom orders x 3 id sets x with/without layout, layouts, detuning maps with traps in all 24 orders through a "
         "sequence; 135 emulation configs (observable sets x evaluation times x initial states x noise models) incl. operators "
-        "with complex coefficients; aliasing for StateRepr / NoiseModel / VirtualDevice / Register in all 6 orders. Registers, layouts and device layouts with negative-zero / tiny negative coordinates.",
+        "with complex coefficients; aliasing for StateRepr / NoiseModel / VirtualDevice / Register in all 6 orders. Registers, layouts and device layouts with negative-zero / tiny negative coordinates. Physical devices whose calibrated layouts share a slug, have no slug, or list one layout twice.",
         "Fields excluded from == by the dataclass (short_description) are not compared; layout subclasses compared by traps+slug.",
         "DESIGN.md §3 C17",
     ),
@@ -335,7 +335,7 @@ CLAIMS = {
         "stateful object: every history of <= 3 (thorough 4) configuration calls (set_initial_state x 3, set_config x 3, "
         "add_config x 3, reset_config, set_evaluation_times x 3, run, observers) on one emulator vs a fresh emulator configured with the net "
         "settings of a reference model (3.8k histories); reduced states get_state(reduce_to_basis=...) of three-level runs vs the "
-        "projection of the full state. Resonant drives made of several unequal constant segments and idle periods: final population == sin^2(area/2) on the three emulator entry points.",
+        "projection of the full state. Resonant drives made of several unequal constant segments and idle periods: final population == sin^2(area/2) on the three emulator entry points. The measured (pseudo-density) state of the legacy results follows the same convention: <reads-as-1 projector> per atom for every basis incl. the leakage bases x every basis state x detection-error rates.",
         "Solver tolerances as listed in the evidence; Rabi value required within the range spanned by effective durations "
         "[T-1, T]; large-shot statistics are not decided.",
         "DESIGN.md §3 C11",
@@ -354,7 +354,7 @@ CLAIMS = {
         "noiseless Hamiltonian; BitStrings under every tape of a 6-value menu per draw x detection-error settings; every sequence "
         "duration 16..329 ns (thorough ..1499) x 6 evaluation-time lists not starting at 0: exactly one stored value per requested "
         "time; the Results store itself: every subset (<= 4) of a 9-point time grid with neighbours closer than 1e-5 relative, every "
-        "value retrievable by exactly its own time, by observable and by tag. Operator representations in which several single-qudit operators share projector keys but not coefficients (X / Y / Z / identity written out) vs an explicit Kronecker construction.",
+        "value retrievable by exactly its own time, by observable and by tag. Operator representations in which several single-qudit operators share projector keys but not coefficients (X / Y / Z / identity written out) vs an explicit Kronecker construction. End-to-end runs repeated with output modulation (emulated duration longer than the programmed one): stored energies equal Tr[rho(t) H(t)^k] with H at the emulated time.",
         "Known finding: observables with own evaluation times are also stored at the default times.",
         "DESIGN.md §3 C20",
     ),
